@@ -180,7 +180,7 @@ def w_macro(job):
     if job["mode"] == "long":
         rc, err, mine, _ = macro_dump(job["compiler"], job["std"], job["inc"], job["header"], True)
         if rc != 0:
-            if "#error" in err and "Coroutines are not supported" in err:
+            if "Coroutines are not supported by this compiler" in err and job["std"] < 20:
                 return dict(status="skipped", id=job["id"], got="header needs coroutine support", n=0)
             return dict(status="error", id=job["id"], got="preprocessor failed: " + first_errors(err), n=0)
         bad = sorted((n, fl) for n, fl in mine.items() if not n.startswith("TROMPELOEIL_"))
